@@ -335,7 +335,9 @@ pub fn random(a: &Args) -> i32 {
     let large = a.usize("large", 2);
     let mut out = util::NdJson::create(&a.req("out"));
     for i in 0..runs + large {
-        let n = if i >= runs { [1usize << 16, 1 << 20, 300_000][i % 3] } else {
+        // the size-prefix boundaries (1 -> 2 -> 4 byte compressed size) are visited deterministically first
+        const BOUNDARY: [usize; 10] = [0, 1, 62, 63, 64, 65, 16382, 16383, 16384, 16385];
+        let n = if i >= runs { [1usize << 16, 1 << 20, 300_000][i % 3] } else if i < 3 * BOUNDARY.len() { BOUNDARY[i % BOUNDARY.len()] } else {
             match rng.gen_range(0..8) { 0 => 0, 1 => 1, 2 => 63, 3 => 64, 4 => 4096, 5 => rng.gen_range(16380..16390), _ => rng.gen_range(0..4096) }
         };
         let qlen = rng.gen_range(1..=64);
